@@ -741,7 +741,17 @@ class Module(HasAccessibles):
                 for mobj in modules:
                     # TODO when needed: here we might add a call to a method :meth:`beforeWriteInit`
                     mobj.writeInitParams()
-                    mobj.initialReads()
+                    try:
+                        mobj.initialReads()
+                    except CommunicationFailedError:
+                        raise
+                    except SECoPError as e:
+                        if e.silent:
+                            mobj.log.debug('initialReads: %s', e)
+                        else:
+                            mobj.log.error('initialReads: %s', e)
+                    except Exception:
+                        mobj.log.error(formatException())
                 # call all read functions a first time
                 for m in polled_modules:
                     for mobj, rfunc, _ in m.pollInfo.polled_parameters:
